@@ -80,6 +80,13 @@ Definition bspec_forward (Bq : biclique V CS NS) (ins : list (Z * list V)) (ckw 
         (b_post Bq) (b_pre Bq) (b_combine Bq),
       (outs_of ns, outs_of rs)).
 
+Definition bspec_step (Bq : biclique V CS NS) (o : biclique_op V CS NS CK NK XK)
+  : res (biclique V CS NS * option (list (Z * V) * list (Z * V))) :=
+  match o with
+  | BFwd ins ckw nkw _ => '(B', out) <- bspec_forward Bq ins ckw nkw ;; Ok (B', Some out)
+  | _ => biclique_step V CS NS CK NK XK ck0 nk0 cstep nstep cclear nclear Bq o
+  end.
+
 (* ---------- RecurrentSerial ---------- *)
 Record rstate := mkRstate { q_cff : CS; q_clat : CS; q_cfb : CS; q_nff : NS; q_nfb : NS; q_prev : option V }.
 (* [use_attr = true]: as coded, the lateral input and the stored feedback are the neurons' .spike ATTRIBUTE;
